@@ -55,6 +55,7 @@ func runC18(r *Run) {
 	c18WriteThenCancel(r)
 	c18ChanShared(r)
 	c18CancelWithUnaryInFlight(r)
+	c18BlockedWriteThenCancel(r)
 	c18ReadTimeout(r)
 }
 
